@@ -649,10 +649,24 @@ func (e *Enc) buildQuery(o *Obl, extra []string, wantModel bool) string {
 
 // buildQueryX with relaxed=true drops every quantified hypothesis: a model of the relaxation is only a
 // candidate counterexample (it may violate the dropped invariants) and is trusted only if it replays.
-func (e *Enc) buildQueryX(o *Obl, extra []string, wantModel bool, relaxed bool) string {
+func (e *Enc) buildQueryX(o *Obl, extra []string, wantModel bool, relaxed bool, opaque ...bool) string {
+	opaqueNow := len(opaque) > 0 && opaque[0]
 	var sb strings.Builder
 	sb.WriteString("(set-option :produce-models true)\n(set-logic ALL)\n")
 	for _, d := range e.decls {
+		if of, ok := e.opaqueFun[d]; ok && opaqueNow {
+			mentioned := strings.Contains(o.Goal, of[0]) || strings.Contains(o.Guard, of[0])
+			for _, x := range extra {
+				if strings.Contains(x, of[0]) {
+					mentioned = true
+				}
+			}
+			if !mentioned {
+				sb.WriteString(of[1])
+				sb.WriteByte('\n')
+				continue
+			}
+		}
 		sb.WriteString(d)
 		sb.WriteByte('\n')
 	}
@@ -661,9 +675,14 @@ func (e *Enc) buildQueryX(o *Obl, extra []string, wantModel bool, relaxed bool) 
 		fmt.Fprintf(&sb, "(assert (= (gstr.len %d) %d))\n", i, len(s))
 	}
 	sb.WriteString("(assert (forall ((s Int)) (! (and (>= (gstr.len s) 0) (=> (= (gstr.len s) 0) (= s 0))) :pattern ((gstr.len s)))))\n")
-	for _, l := range e.lines[:o.NLines] {
+	for li, l := range e.lines[:o.NLines] {
 		if relaxed && strings.HasPrefix(l, "(assert") && (strings.Contains(l, "(forall ") || strings.Contains(l, "(exists ")) {
 			continue
+		}
+		if opaqueNow {
+			if fnm, isLemma := e.lemmaLine[li]; isLemma && !strings.Contains(o.Goal, fnm) && !strings.Contains(o.Guard, fnm) {
+				continue
+			}
 		}
 		sb.WriteString(l)
 		sb.WriteByte('\n')
@@ -736,9 +755,14 @@ func (e *Enc) discharge0(o *Obl, fkey string, opts *VerifyOpts) *OblResult {
 			f = strings.TrimSuffix(file, ".smt2") + "." + tag + ".smt2"
 		}
 		// the query goes out without the (large) get-value request; only a sat answer is asked again for its model
-		writeFile(f, e.buildQueryX(o, extra, false, relaxed))
+		// first attempt: recursive spec functions the goal does not mention are left uninterpreted
+		writeFile(f, e.buildQueryX(o, extra, false, relaxed, true))
 		sr := runQuery(f, opts.TimeoutS, agree, nil)
+		if sr.Status == "sat" && len(e.opaqueFun) > 0 {
+			sr.Status = "unknown" // a model of the weakened query proves nothing: ask again with the definitions
+		}
 		if sr.Status == "unknown" && !relaxed && !opts.NoRetry {
+			writeFile(f, e.buildQueryX(o, extra, false, relaxed))
 			rt := opts.TimeoutS * 3
 			if rt < 60 {
 				rt = 60 // a loaded machine must not turn a slow proof into an alarm
